@@ -780,6 +780,7 @@ package reflect
 // reflect.Value of a nil interface - is answered with an error, never a panic (C13); a failed
 // build registers nothing (C13/C07); what gets registered is THE descriptor of the type (C07).
 //@ func createStructDesc(rv reflect.Value) (sd *structDesc, err error)
+//@   ensures c07_done: err == nil ==> sddone(heap("tType.Sd"), sd)
 //@   requires c13_idle: len(prefetchedTypes) == 0
 //@   ensures c13_idle: len(prefetchedTypes) == 0
 //@   entry ghost $sd0 = heap("tType.Sd")
@@ -798,6 +799,7 @@ package reflect
 //@   ensures old($brk) <= $brk
 
 //@ func getOrcreateStructDesc(rv reflect.Value) (sd *structDesc, err error)
+//@   ensures c07_done: err == nil ==> sddone(heap("tType.Sd"), sd)
 //@   requires c13_idle: len(prefetchedTypes) == 0
 //@   ensures c13_idle: len(prefetchedTypes) == 0
 //@   requires c07_sds: $(sdsinv)
